@@ -484,6 +484,39 @@ func checkC18(c *Ctx, p *Prog, r *Result) {
 		r.fail("anchor fdo/sqlite.DB.ReplaceVoucher not found")
 	}
 
+	// the add that ReplaceVoucher builds on is a strict insert
+	r.rule("C18.add-voucher-strict", "ReplaceVoucher adds the new row, deletes the old one and on failure deletes the new one again; this is only faithful if the add cannot touch an existing row. (*DB).AddVoucher therefore writes through insert with a nil conflict list (a plain INSERT that fails on a duplicate GUID) and executes no other statement")
+	r.floor("C18.add-voucher-strict", 1)
+	if av := p.ByName["fdo/sqlite.DB.AddVoucher"]; av != nil && av.Blocks != nil {
+		strict, other := 0, []string{}
+		for _, b := range av.Blocks {
+			for _, in := range b.Instrs {
+				call, ok := in.(ssa.CallInstruction)
+				if !ok {
+					continue
+				}
+				n := p.calleeOf(call.Common()).Name
+				args := allArgs(call)
+				switch {
+				case n == "fdo/sqlite.DB.insert" || n == "fdo/sqlite.insert":
+					last := args[len(args)-1]
+					if c, ok := last.(*ssa.Const); ok && c.IsNil() {
+						strict++
+					} else {
+						other = append(other, "insert with a conflict list at "+p.instrPos(in))
+					}
+				case strings.HasPrefix(n, "fdo/sqlite.") && (strings.HasSuffix(n, ".insertOrIgnore") || strings.HasSuffix(n, ".update") || strings.HasSuffix(n, ".remove")):
+					other = append(other, n+" at "+p.instrPos(in))
+				case strings.HasSuffix(n, ".ExecContext") || strings.HasSuffix(n, ".Exec") || strings.HasSuffix(n, ".QueryRowContext") || strings.HasSuffix(n, ".QueryContext"):
+					other = append(other, "raw statement "+n+" at "+p.instrPos(in))
+				}
+			}
+		}
+		r.table(p, "C18.add-voucher-strict", "fdo/sqlite.DB.AddVoucher", p.Pos(av.Pos()), strict == 1 && len(other) == 0, fmt.Sprintf("%d strict insert(s); other writes: %s", strict, strings.Join(other, "; ")))
+	} else {
+		r.fail("anchor fdo/sqlite.DB.AddVoucher not found")
+	}
+
 	// setters overwrite
 	r.rule("C18.setters-overwrite", "no Set* method of *sqlite.DB writes with insertOrIgnore (which keeps the first value and silently drops later ones): setters store through the upserting insert, so the latest value is the one read back")
 	r.floor("C18.setters-overwrite", 15)
